@@ -504,3 +504,9 @@ def r7b(cx, rec):
                 rec.need(access_path(e[2][1]) == 'self.pieces_num', 'validate-arg/' + variant, f, vb, 'validated against %s' % show(e[2][1])[:60])
             rec.site(f, bb, '%s sent only after %s succeeded: %s' % (variant, val, bb in okreg))
             rec.need(bb in okreg, 'unvalidated-index/' + variant, f, bb, '%s is sent to the manager without a successful %s: the manager indexes its vectors with it' % (variant, val))
+
+
+@TABLE.rule('8', 'K1', 'a peer that goes away gives its piece back: the remover resets the assigned element unless it is Have, with no further '
+            'condition (shared kill chain)', floor=1)
+def r8(cx, rec):
+    C.reset_on_kill(cx.F, rec)
